@@ -57,6 +57,17 @@ func c8Configs(en *c8env) []*eval.Config {
 	a := eval.NewConfig()
 	a.ConstantMap["K1"] = int64(1)
 	a.ConstantMap["KS"] = "s"
+	// unsorted list constants: the compiled program and the config share them
+	// by reference, so an operator that rearranges its operand would rewrite
+	// the caller's config
+	var bigI []int64
+	var bigS []string
+	for i := 0; i < 60; i++ {
+		bigI = append(bigI, int64((i*37)%61))
+		bigS = append(bigS, fmt.Sprintf("s%02d", (i*41)%61))
+	}
+	a.ConstantMap["BIGI"] = bigI
+	a.ConstantMap["BIGS"] = bigS
 	a.VariableKeyMap["x"] = 1
 	a.VariableKeyMap["y"] = 2
 	for k, v := range ops {
@@ -99,6 +110,24 @@ var c8Sources = []string{
 	";;;; reordering : maybe\n(+ 1 1)",
 	"(= x \"abc)",
 	"(and (= (f0) 0) (or (= x 2) y (= 1 1)))",
+	";;;; optimize:false, constant_folding:true\n(and (= x (+ 1 2)) (or y (= (f 1 1) 2)))",
+	";;;;reordering:false,optimize:true , fast_evaluation : false\n(and (= x (+ 1 2)) (or y (= (f 1 1) 2)))",
+	c8BigSrc(),
+	"(or (in x BIGI) (in KS BIGS) (= (f 1 2) 3))",
+}
+
+// c8Probe: sources used as the final step of long histories: plain sources
+// whose compilation is sensitive to leaked options / stateless declarations /
+// rearranged constants.
+var c8Probe = map[int]bool{0: true, 4: true, 5: true, 10: true, 13: true, 14: true}
+
+func c8BigSrc() string {
+	var is, ss []string
+	for i := 0; i < 70; i++ {
+		is = append(is, fmt.Sprint(1000+(i*29)%71))
+		ss = append(ss, fmt.Sprintf("\"t%02d\"", (i*31)%71))
+	}
+	return "(or (overlap BIGI (" + strings.Join(is, " ") + ")) (overlap (" + strings.Join(ss, " ") + ") BIGS) (overlap BIGI (5 4 3 2 1)) y)"
 }
 
 // c8Snapshot renders the public contents of a Config canonically.
@@ -186,7 +215,7 @@ func c08(r *rep.Run) {
 		depth = 4
 		r.SetBudget(1800e9)
 	}
-	r.Rule = "three caller configs with different contents (constants, registered/undefined-mode variables, operators with f declared stateless in two of them, costs, options, a stateless list with spare capacity) x 11 sources (every directive form incl. after an ordinary comment, sources failing at each parser stage, undefined variables, stateless and non-stateless operators). (1) every history of Compile(config_i, source_j) calls up to the depth bound: after every call every config's public contents are unchanged and the result (error text, or Dump + DumpTable + behaviour on 3 bindings) equals the result of the same call made first on fresh equal configs; each history is also replayed to expose iteration-order nondeterminism. (2) copy histories: every chain of CopyConfig / NewConfig(ExtendConf) up to depth 3 followed by every single mutation (insert/overwrite/delete in each of the 5 maps, overwrite/append on the stateless list) of either side: the other side is unchanged. (3) every interleaving of 2 and 3 concurrent Compile calls on one shared config whose folding invokes the harness's stateless operator (scheduling point), plus a free-running race-detector pass (Compile + CopyConfig + ExtendConf on one config). non-trivial = histories in which a directive-bearing or failing compilation precedes another compilation"
+	r.Rule = "three caller configs with different contents (constants, registered/undefined-mode variables, operators with f declared stateless in two of them, costs, options, a stateless list with spare capacity) x 11 sources (every directive form incl. after an ordinary comment, sources failing at each parser stage, undefined variables, stateless and non-stateless operators). (1) every history of Compile(config_i, source_j) calls up to the depth bound (from the third step on the last call is one of 6 probing sources): after every call every config's public contents are unchanged and the result (error text, or Dump + DumpTable + behaviour on 3 bindings) equals the result of the same call made first on fresh equal configs; each history is also replayed to expose iteration-order nondeterminism. (2) copy histories: every chain of CopyConfig / NewConfig(ExtendConf) up to depth 3 followed by every single mutation (insert/overwrite/delete in each of the 5 maps, overwrite/append on the stateless list) of either side: the other side is unchanged. (3) every interleaving of 2 and 3 concurrent Compile calls on one shared config whose folding invokes the harness's stateless operator (scheduling point), plus a free-running race-detector pass (Compile + CopyConfig + ExtendConf on one config). non-trivial = histories in which a directive-bearing or failing compilation precedes another compilation"
 	r.Assume = []string{"Config equality is equality of the exported fields (maps by content, operators by function identity)",
 		"scheduling points inside Compile exist only where it calls back into the environment (stateless operator during folding); the rest is covered by the race pass"}
 
@@ -270,6 +299,11 @@ func c08(r *rep.Run) {
 				return
 			}
 			for c := 0; c < alpha; c++ {
+				// the last step of a depth-3+ history is one of the probing
+				// sources (those whose result depends on what could have leaked)
+				if k >= 2 && !c8Probe[c%len(c8Sources)] {
+					continue
+				}
 				hist[k] = c
 				rec(k + 1)
 			}
